@@ -270,6 +270,72 @@ func runC05(cfg Config) {
 		rep.Count("gnutar.modes", true, "gnutar-modes")
 	}
 
+	// (d) archives in archive order, not directory-walk order (a tar stream or another tool's catar need not be sorted):
+	// sibling names that are prefixes of one another, directories before files — packed from the record stream,
+	// unpacked onto the real file system, final tree compared with the LocalFS model's (kinds, contents, targets,
+	// owners, modes, every mtime the model says was set explicitly: files, links, directories incl. those that
+	// got children after they were created)
+	if m.cmd != nil {
+		sandbox := filepath.Join(cfg.Work, "order-sandbox")
+		pool := []string{"app", "app.d", "ap", "app.d.bak", "appx", "b", "b0", "b.d"}
+		for it := 0; it < cfg.N(40, 800); it++ {
+			os.RemoveAll(sandbox)
+			dst := filepath.Join(sandbox, "dst")
+			os.MkdirAll(dst, 0755)
+			mtOf := func() int64 { return int64(1000000000+rng.Intn(900000000))*1000000000 + int64(rng.Intn(1000)) }
+			recs := []fileRec{{name: ".", path: ".", kind: "dir", perm: 0755, mtime: mtOf()}}
+			var fill func(dir string, depth int)
+			fill = func(dir string, depth int) {
+				names := append([]string{}, pool...)
+				rng.Shuffle(len(names), func(i, j int) { names[i], names[j] = names[j], names[i] })
+				for _, nm := range names[:2+rng.Intn(5)] {
+					p := nm
+					if dir != "." {
+						p = dir + "/" + nm
+					}
+					r := fileRec{name: nm, path: p, perm: uint32(0600 | rng.Intn(0o200)), mtime: mtOf()}
+					switch k := rng.Intn(8); {
+					case k < 3 && depth < 2:
+						r.kind, r.perm = "dir", 0755
+						recs = append(recs, r)
+						fill(p, depth+1)
+						continue
+					case k < 6:
+						r.kind, r.data = "reg", randBytes(rng, rng.Intn(40))
+					default:
+						r.kind, r.target, r.perm = "symlink", "t"+nm, 0777
+					}
+					recs = append(recs, r)
+				}
+			}
+			fill(".", 0)
+			enc := tarRecs(recs)
+			if enc == "err" || enc == "panic" {
+				continue
+			}
+			b := unhx(enc)
+			initial := fsEntries(sandbox)
+			uerr := desync.UnTar(context.Background(), bytes.NewReader(b), desync.NewLocalFS(dst, desync.LocalFSOptions{}))
+			verdict := "err"
+			if uerr == nil {
+				verdict = "ok"
+			}
+			lline := fmt.Sprintf("lfs.untar root=%s nso=0 nsp=0 fs=%s bytes=%s", hx([]byte(dst)), strings.Join(append(ancestorEntries(sandbox), initial...), ";"), hx(b))
+			want := m.Ask(lline)
+			rep.Count(lline, len(recs) >= 3, "archive-order:"+verdict)
+			if want == "no-model" {
+				continue
+			}
+			if uerr != nil {
+				monitor("UnTar of a packed record stream failed on disk: "+uerr.Error(), clip(lline, 100000), "", "")
+			} else if diff := compareFS(want, verdict, fsEntries(sandbox), sandbox); diff != "" {
+				rep.Disagree(Disagreement{Kind: "correspondence", Case: clip(lline, 100000), Model: clip(want, 3000), Impl: clip(strings.Join(fsEntries(sandbox), ";"), 3000),
+					What: "tar ; untar of an archive in archive order does not give the tree the LocalFS model gives: " + diff})
+			}
+		}
+		os.RemoveAll(sandbox)
+	}
+
 	// (c) on disk
 	nd := cfg.N(12, 300)
 	for it := 0; it < nd; it++ {
